@@ -27,7 +27,7 @@ CFG_FULL = {
     "values": (3,), "templates": ("mul2", "add"), "iops": (("add", ("lit", 1)),),
     "unreg": True, "funs": ("F1",), "knobs": ("K1",),
 }
-CFG_REDUCED = {"values": (3,), "templates": ("mul2", "inc"), "unreg": True}
+CFG_REDUCED = {"values": (3,), "templates": ("mul2", "inc"), "unreg": True, "fsetset": True}
 CFG_MIX = {"values": (3,), "index_values": (1,), "templates": ("mul2", "total", "dyn", "add"),
            "setc": True, "funs": ("F1",), "knobs": ("K1",)}
 CFG_DEEP = {"values": (3,), "templates": ("mul2", "size"), "unreg": True}
@@ -38,6 +38,9 @@ ALPHABETS = {"full": CFG_FULL, "reduced": CFG_REDUCED, "mix": CFG_MIX, "deep": C
 
 def alphabet_for(world, name):
     cfg = dict(ALPHABETS[name])
+    if cfg.pop("fsetset", False):
+        # an assignment whose first attempt fails at its first dependant write (exception caught) and which is then repeated
+        cfg["extra"] = list(cfg.get("extra", [])) + [("fsetset", L, 5, 1) for L in world["leaves"]]
     n = cfg.pop("leaves_n", None)
     if n:
         cfg["leaves"] = world["leaves"][:n]
